@@ -339,8 +339,43 @@ def _taylor(chk, N):
                 "B3 sympy rational normal form", th)
 
 
+def _pipeline_registry(chk):
+    """the polynomial Hamiltonian handed out for a point is built FROM THAT POINT: the process-wide pipeline registry never
+    returns the pipeline of another point (same libration index, other system / other mu)"""
+    import hiten.algorithms.types.services.hamiltonian as sh
+    from pyvc.core import real_self
+
+    def th():
+        class Point:
+            def __init__(self, idx, mu):
+                self.idx, self.mu = idx, mu
+        built = []
+
+        class Pipe:
+            def __init__(self, point, degree):
+                self.point, self.degree = point, degree
+                built.append(self)
+        saved = sh.HamiltonianPipeline if hasattr(sh, "HamiltonianPipeline") else None
+        svc = real_self(sh._HamiltonianPipelineService, _pipelines={}, _conversion=None)
+        svc._create_pipeline = lambda point, degree: Pipe(point, degree)
+        em, other = Point(1, 0.0121505856), Point(1, 0.3)
+        for point, degree in ((em, 4), (other, 4), (em, 4), (other, 6), (em, 6)):
+            p = sh._HamiltonianPipelineService.get(svc, point, degree)
+            if p.point is not point or p.degree != degree:
+                raise Refuted(f"pipeline registry: get(point with mu = {point.mu}, degree {degree}) returns the pipeline of the "
+                              f"point with mu = {p.point.mu}, degree {p.degree} (same libration index, another system)",
+                              "history: L1 of Earth-Moon first, then L1 of a system with mu = 0.3",
+                              inputs={"history": ["get(EM L1, 4)", "get(mu=0.3 L1, 4)"]})
+        if sh._HamiltonianPipelineService.get(svc, em, 4) is not sh._HamiltonianPipelineService.get(svc, em, 4):
+            raise Refuted("pipeline registry does not cache", "")
+    chk.obl("_HamiltonianPipelineService.get(point, degree): the pipeline returned is built from THAT point and degree, for "
+            "points of different systems with the same libration index requested in a row", "K2 postconditions (closed histories)",
+            ["hiten.algorithms.types.services.hamiltonian:_HamiltonianPipelineService.get"], "B4 exact evaluation", th)
+
+
 def run(chk):
     loader.install()
+    _pipeline_registry(chk)
     thorough = chk.tier == "thorough"
     N = 8 if thorough else 5
     chk.under_contract(HH + ":_build_T_polynomials", HH + ":_build_A_polynomials", HH + ":_build_potential_U",
